@@ -362,6 +362,26 @@ Theorem C19_errors_plugin_partial :
 Proof. exact create_from_der_fmt_err. Qed.
 Print Assumptions C19_errors_plugin_partial.
 
+(* ======== PEM (partial: base64 is an opaque pair of functions) ====================================== *)
+
+(* the line framing of topem / unpem is the identity on the payload, for every base64 whose alphabet has no
+   newline, white space or '-' and whose decoder inverts its encoder *)
+Theorem C19_pem_framing_partial :
+  forall (b64encode : bytes -> bytes) (b64decode : bytes -> result bytes),
+  (forall d, Forall b64char (b64encode d)) -> (forall d, b64decode (b64encode d) = Ok d) ->
+  forall der name, ~ In nl name -> unpem b64decode (topem b64encode der name) = Ok der.
+Proof. exact unpem_topem. Qed.
+Print Assumptions C19_pem_framing_partial.
+
+Theorem C19_vk_pem_roundtrip_partial :
+  forall (b64encode : bytes -> bytes) (b64decode : bytes -> result bytes) sqrt_mod order_ok ed_vk r x y pe ce pem,
+  (forall d, Forall b64char (b64encode d)) -> (forall d, b64decode (b64encode d) = Ok d) ->
+  In r wrows -> (pe = Uncompressed \/ pe = Hybrid) -> point_valid order_ok (curve_of_row r) x y ->
+  vk_to_pem b64encode (curve_of_row r) x y pe ce = Ok pem ->
+  vk_from_pem sqrt_mod order_ok ed_vk known_curves b64decode pem None true true = Ok (VkW (curve_of_row r) x y).
+Proof. exact vk_pem_roundtrip17. Qed.
+Print Assumptions C19_vk_pem_roundtrip_partial.
+
 (* ======== non-vacuity ==================================================================================== *)
 
 (* the generator of P-256 is a valid point; its DER encoding is header ++ coordinates, decodes to the same
